@@ -1430,6 +1430,11 @@ func parsePublicKey(algo PublicKeyAlgorithm, keyData *publicKeyInfo) (interface{
 		if len(p) > ed25519.PublicKeySize {
 			return nil, errors.New("x509: trailing data after Ed25519 data")
 		}
+		// A shorter key is not an Ed25519 key either, and ed25519.Verify
+		// panics on any length other than PublicKeySize.
+		if len(p) != ed25519.PublicKeySize {
+			return nil, errors.New("x509: wrong Ed25519 public key size")
+		}
 		return p, nil
 	case X25519:
 		p := X25519PublicKey(asn1Data)
